@@ -12,7 +12,7 @@ from sismic.model import Event, InternalEvent, MetaEvent
 from sismic import exceptions as sx
 
 import realize
-from probes import Probes, Listener, Mon, META_NAMES, ev_id
+from probes import Probes, Listener, Mon, META_NAMES, ev_id, Runaway
 
 FATAL = ('PreconditionError', 'PostconditionError', 'InvariantError', 'PropertyStatechartError')
 
@@ -21,26 +21,34 @@ class Hang(BaseException):
     """A public call did not return within CALL_LIMIT seconds (observed as the outcome 'Hang')."""
 
 
-CALL_LIMIT = float(os.environ.get('VERIF_CALL_LIMIT', '20'))
+CALL_LIMIT = float(os.environ.get('VERIF_CALL_LIMIT', '15'))
+HANGS = 0          # calls of this process that did not return (a few are enough: later jobs are skipped)
+HANG_BUDGET = 2
 
 
 def _alarm(signum, frame):
+    global HANGS
+    HANGS += 1
     raise Hang()
 
 
 class watchdog:
     """Bounds one call into the code under test (main thread of the process only; a no-op elsewhere)."""
 
+    depth = 0
+
     def __enter__(self):
         import signal
         import threading
-        self.on = threading.current_thread() is threading.main_thread()
+        self.on = threading.current_thread() is threading.main_thread() and watchdog.depth == 0
+        watchdog.depth += 1
         if self.on:
             self.old = signal.signal(signal.SIGALRM, _alarm)
             signal.setitimer(signal.ITIMER_REAL, CALL_LIMIT)
         return self
 
     def __exit__(self, *a):
+        watchdog.depth -= 1
         if self.on:
             import signal
             signal.setitimer(signal.ITIMER_REAL, 0)
@@ -53,30 +61,57 @@ class Run:
 
     def __init__(self, c, variant='api', pool='plain', seed=0, ignore_contract=False, metas=True,
                  monitor=False, sc=None, names=None, rename=None, reimport=False, copy_into=False,
-                 manual_execute=False, shadow=False):
+                 manual_execute=False, shadow=False, epoch=0):
         self.c = c
         self.shadow = None
-        if sc is None:
-            sc, names = realize.build(c, variant, pool, seed)
-        if rename is not None:
-            sc, names = realize.rename_some(sc, names, rename)
         self.manual_execute = manual_execute
         self.host_only = set()
-        if copy_into:
-            sc, names, self.host_only = realize.plug_into_host(sc, names, gc_root=realize.gc.root(c))
         self.broken = ''
+        self.interp = None
+        self.base = 0
+        self.listener = self.listener2 = self.mon = None
+        self.opt = {'ignore': bool(ignore_contract), 'metas': bool(metas)}
+        self.returned = []
+        self.probes = Probes()
+        try:
+            # building the statechart under test goes through the public API too: a call that fails or does not
+            # return is an observation of this run (every call reports it), not a crash of the harness
+            with watchdog():
+                if sc is None:
+                    sc, names = realize.build(c, variant, pool, seed)
+                if rename is not None:
+                    sc, names = realize.rename_some(sc, names, rename)
+                if copy_into:
+                    sc, names, self.host_only = realize.plug_into_host(sc, names, gc_root=realize.gc.root(c))
+        except Hang:
+            self.broken = 'BuildFailed:Hang'
+        except Exception as e:
+            self.broken = 'BuildFailed:' + type(e).__name__
+        if self.broken:
+            self.sc, self.names = None, (names or realize.names_for(c, pool))
+            self.ids = {v: k for k, v in self.names.items()}
+            return
         if reimport:
             from sismic.io import import_from_yaml, export_to_yaml
             try:
-                sc = import_from_yaml(export_to_yaml(sc))
-            except Exception as e:      # observed, not hidden: every call of this run reports it
+                with watchdog():
+                    sc = import_from_yaml(export_to_yaml(sc))
+            except (Exception, Hang) as e:      # observed, not hidden: every call of this run reports it
                 self.broken = 'ReimportFailed:' + type(e).__name__
         self.sc, self.names = sc, names
         self.ids = {v: k for k, v in names.items()}
         self.probes = Probes()
         ctx = {'p': self.probes.p, 'g': self.probes.g, 'c': self.probes.c, 'tick': self.probes.tick}
-        self.interp = Interpreter(sc, initial_context=ctx, ignore_contract=ignore_contract)
+        self.base = epoch       # the run starts at a large absolute time (float resolution, tolerances)
+        if epoch:
+            from sismic.clock import SimulatedClock
+            clk = SimulatedClock()
+            clk.time = epoch
+            self.interp = Interpreter(sc, initial_context=ctx, ignore_contract=ignore_contract, clock=clk)
+        else:
+            self.interp = Interpreter(sc, initial_context=ctx, ignore_contract=ignore_contract)
         self.probes.clock = self.interp.clock
+        self.probes.base = epoch
         self.listener = None
         if metas:
             self.listener = Listener(self.probes)
@@ -91,6 +126,7 @@ class Run:
             self.interp.bind_property_statechart(watchdog_chart())
         elif monitor:
             self.mon = Mon()
+            self.mon.base = epoch
             self.interp.bind_property_statechart(
                 monitor_chart(), interpreter_klass=functools.partial(Interpreter, initial_context={'mon': self.mon}))
         if metas:
@@ -116,15 +152,17 @@ class Run:
                 sh.interp.queue(Event(realize.ev_name(e)))
             for _ in range(2):
                 sh.interp.execute_once()
-        except (Exception, Hang):
+        except (Exception, Hang, Runaway):
             pass
 
     # ---- projection
     def state(self):
         it = self.interp
+        if it is None:
+            return {'conf': [], 'final': False, 'time': 0, 'x': 0}
         extra = len(set(it.context) - {'p', 'g', 'c', 'tick', 'x', 'box', 'lst'})     # nothing else may appear
         return {'conf': sorted(self.ids[n] for n in it.configuration if n not in self.host_only), 'final': bool(it.final),
-                'time': it.time, 'x': it.context.get('x', -1) + 1000 * extra}
+                'time': it.time - self.base, 'x': it.context.get('x', -1) + 1000 * extra}
 
     def private(self):
         it = self.interp
@@ -185,19 +223,39 @@ class Run:
 
     # ---- one public call
     def call(self, h):
+        """The call and the projection of the state before / after it, bounded by the watchdog as a whole."""
+        global HANGS
+        try:
+            with watchdog():
+                return self._call(h)
+        except (Hang, Runaway) as e:
+            if isinstance(e, Runaway):
+                HANGS += 1
+            ntr = len(self.c['trans'])
+            z = {'conf': [], 'final': False, 'time': 0, 'x': 0}
+            self.broken = 'Hang'        # the interpreter is not used any further
+            return {'op': h['op'], 'ev': h.get('ev', 0), 'par': h.get('par', 0), 'dl': h.get('dl', 0),
+                    'gv': [bool(v) for v in h.get('gv', [])] or [False] * ntr, 'cfail': h.get('cfail', 0),
+                    'mfail': h.get('mfail', 0), 'clk': 0, 'pre': z, 'post': dict(z), 'some': False, 'rtime': 0, 'steps': [],
+                    'exc': 'Hang', 'eobj': 0, 'eidx': 0, 'log': [], 'chk': 1, 'ign': self.opt['ignore'], 'stale': 0,
+                    'opq': False, 'tp': dict(ent=[], exi=[], fir=[], con=[], trs=[]), 'hasl2': self.listener2 is not None,
+                    'l2': [], 'mt': [], 'ref': dict(NOREF)}
+
+    def _call(self, h):
         it = self.interp
         op = h['op']
         ntr = len(self.c['trans'])
         gv = [bool(v) for v in h.get('gv', [])] or [False] * ntr
         o = {'op': op, 'ev': h.get('ev', 0), 'par': h.get('par', 0), 'dl': h.get('dl', 0),
              'gv': gv, 'cfail': h.get('cfail', 0), 'mfail': h.get('mfail', 0),
-             'clk': it.clock.time, 'pre': self.state(), 'some': False, 'rtime': 0, 'steps': [],
+             'clk': it.clock.time - self.base if (it is not None and not self.broken) else 0,
+             'pre': self.state() if not self.broken else {'conf': [], 'final': False, 'time': 0, 'x': 0}, 'some': False, 'rtime': 0, 'steps': [],
              'exc': '', 'eobj': 0, 'eidx': 0, 'log': [], 'chk': 1,
              'ign': self.opt['ignore'], 'stale': 0, 'opq': False, 'tp': dict(ent=[], exi=[], fir=[], con=[], trs=[]), 'hasl2': self.listener2 is not None, 'l2': [], 'mt': [],
              'ref': dict(NOREF)}
         if self.broken:
             o['exc'] = self.broken
-            o['post'] = self.state()
+            o['post'] = dict(o['pre'])
             o['rtime'] = o['post']['time']
             return o
         if self.shadow is not None:
@@ -208,7 +266,7 @@ class Run:
         if self.listener2 is not None:
             self.listener2.seen = []
         try:
-          with watchdog():
+          if True:
             if op == 'queue':
                 kw = {}
                 if o['dl'] or h.get('xd', (o['ev'] + o['par'] + len(self.returned)) % 2 == 0):
@@ -223,7 +281,7 @@ class Run:
                 if ms is not None:
                     o['some'] = True
                     o['steps'] = self.flat_step(ms)
-                    o['rtime'] = ms.time
+                    o['rtime'] = ms.time - self.base
                     o['tp'] = self.testing_predicates(ms)
                     self.returned.append((ms, json.dumps(o['steps'])))
                     if len(self.returned) > 6:
@@ -244,11 +302,9 @@ class Run:
                 o['some'] = bool(res)
                 o['steps'] = [st for m1 in res for st in self.flat_step(m1)]
                 o['eidx'] = len(res)
-                o['rtime'] = res[-1].time if res else it.time
+                o['rtime'] = (res[-1].time if res else it.time) - self.base
             else:
                 raise ValueError(op)
-        except Hang:
-            o['exc'] = 'Hang'
         except sx.ContractError as e:
             o['exc'] = type(e).__name__
             o['eobj'] = self.owner_of(e.obj)
